@@ -340,7 +340,8 @@ Section Tables.
   Qed.
 
   (* RightTrim p m at pos, for ANY operand p:
-       operand failed -> its error, moved to the end of the whitespace run that starts at the error's position;
+       operand failed -> a whitespace error: unchanged; any other error: moved to the end of the whitespace run that
+                         starts at the error's position;
        operand returned no node -> unchanged;
        operand returned one node n (not an end-of-input node), r the run at n's end:
             run permitted -> the same node with its end moved to the end of the run (start and value kept)
@@ -349,9 +350,10 @@ Section Tables.
     1 <= epos e ->
     rp p c stk lrc pos = Ok (res, cp, Some e, c') ->
     parse_step inp rules rp rs (PRightTrim m p) c stk lrc pos =
-    Ok (res, cp, Some (mk_err (w_end (spec_run inp (epos e))) (ecause e)), c').
+    Ok (res, cp, Some (if is_wserr e then e else mk_err (w_end (spec_run inp (epos e))) (ecause e)), c').
   Proof.
     intros He H. cbn [parse_step]. rewrite H. cbn [bind]. rewrite skip_ws_spec by exact He. cbn [fst].
+    destruct (is_wserr e); [reflexivity|].
     destruct (epos e <? w_end (spec_run inp (epos e))) eqn:E; [reflexivity|].
     apply N.ltb_ge in E. unfold spec_run, run_at in *. cbn [w_end] in *.
     replace (epos e + len_N (run_of (rest inp (epos e)))) with (epos e) by lia. rewrite mk_err_eta. reflexivity.
@@ -463,7 +465,7 @@ Definition tok_pres (r : tokres) (c : ctx) : pres :=
 
 Lemma tok_parse inp rules f t c stk lrc pos : (3 <= f)%nat -> 1 <= pos -> cerr c = None ->
   exists c', cerr c' = None /\
-    parse inp rules f (tok_expr t) c stk lrc pos = Ok (tok_pres (spec_token true inp t pos) c').
+    parse inp rules f (tok_expr t) c stk lrc pos = Ok (tok_pres (spec_token inp t pos) c').
 Proof.
   intros Hf Hp Hc. destruct t as [ml ch mr]. unfold spec_token, tok_expr. cbn [t_left t_rune t_right].
   destruct ml as [ml|]; destruct mr as [mr|]; cbn [gap gap_check].
@@ -476,9 +478,9 @@ Proof.
     rewrite (ltrim_ctx_none pos q (log_fail c q (CNotFound (quote_rune ch))) Hc) in Hl.
     destruct (byte_is inp q ch) eqn:Eb.
     + destruct (mode_check ml r) as [w|] eqn:Em.
-      * destruct (mode_check_pos inp pos ml w Em) as (Hw & _).
+      * destruct (mode_check_pos inp pos ml w Em) as (Hw & Hws).
         exists c. split; [exact Hc|].
-        erewrite righttrim_table_err; [| |exact Hl]; [reflexivity|lia].
+        erewrite righttrim_table_err; [| |exact Hl]; [rewrite Hws; reflexivity|lia].
       * exists c. split; [exact Hc|].
         rewrite (righttrim_table_node inp rules _ _ mr _ c stk lrc pos (NTerm [ch] (VRune ch) q (q + 1)) [] c);
           [|cbn [node_rpos]; lia|intros q0; discriminate|exact Hl].
@@ -493,7 +495,7 @@ Proof.
     rewrite (ltrim_ctx_none pos q (log_fail c q (CNotFound (quote_rune ch))) Hc) in Hl.
     rewrite Hl. destruct (byte_is inp q ch) eqn:Eb.
     + exists c. split; [exact Hc|]. destruct (mode_check ml r) as [w|].
-      * rewrite mk_err_eta. reflexivity.
+      * reflexivity.
       * rewrite no_run_end. reflexivity.
     + exists (log_fail c q (CNotFound (quote_rune ch))). split; [exact Hc|]. reflexivity.
   - (* RightTrim rune *)
@@ -508,7 +510,7 @@ Proof.
 Qed.
 
 (* an accepted token is the rune's node: it starts at or behind pos and ends behind its start *)
-Lemma spec_token_accept b inp t pos n : spec_token b inp t pos = TAccept n ->
+Lemma spec_token_accept inp t pos n : spec_token inp t pos = TAccept n ->
   exists q r, n = NTerm [t_rune t] (VRune (t_rune t)) q r /\ pos <= q /\ q < r.
 Proof.
   unfold spec_token. destruct (byte_is inp _ _); [|discriminate].
@@ -541,7 +543,7 @@ Lemma seq_tokens inp rules ip : forall todo done f c stk lrc pos merge st,
   exists st' c',
     seqp inp rules f (tokq ip (done ++ todo)) (length done) c stk lrc pos merge st = Ok (false, st', c') /\
     cerr c' = None /\ s_cp st' = s_cp st /\
-    match gen_tokens true inp todo pos with
+    match spec_tokens inp todo pos with
     | SAccept ns e => s_res st' = [seq_node ip e (rev (s_nodes st) ++ ns)] /\ s_err st' = None
     | SReject e => s_res st' = [] /\ s_err st' = Some e
     end.
@@ -553,7 +555,7 @@ Proof.
     rewrite En. cbn [bind].
     assert (El : seq_lencheck SeqOf (length (map tok_expr (done ++ []))) (length done) = true)
       by (cbn [seq_lencheck]; apply Nat.eqb_eq; rewrite map_length, app_length; cbn [length]; lia).
-    rewrite El. cbn [s_nodes s_cp s_res s_err]. rewrite Hres, Herr. cbn [keep_max append_node gen_tokens].
+    rewrite El. cbn [s_nodes s_cp s_res s_err]. rewrite Hres, Herr. cbn [keep_max append_node spec_tokens].
     rewrite handle_result_seq_node by reflexivity. cbn [q_ip tokq]. rewrite ?app_nil_r.
     assert (Ecp : (if merge then set_union (s_cp st) [] else s_cp st) = s_cp st) by (destruct merge; reflexivity).
     destruct (s_nodes st) as [|lastn tl] eqn:Es.
@@ -568,8 +570,8 @@ Proof.
     destruct (tok_parse inp rules f t (reg_call c) stk lrc pos ltac:(lia) Hp Hc) as (c1 & Hc1 & Hparse).
     rewrite Hparse.
     assert (Ecp : (if merge then set_union (s_cp st) [] else s_cp st) = s_cp st) by (destruct merge; reflexivity).
-    destruct (spec_token true inp t pos) as [n|e] eqn:Et; cbn [tok_pres bind].
-    + destruct (spec_token_accept _ _ _ _ _ Et) as (q0 & r0 & En' & Hq1 & Hq2).
+    destruct (spec_token inp t pos) as [n|e] eqn:Et; cbn [tok_pres bind].
+    + destruct (spec_token_accept _ _ _ _ Et) as (q0 & r0 & En' & Hq1 & Hq2).
       cbn [alts_loop s_nodes s_cp s_res s_err]. rewrite Herr. cbn [keep_max].
       set (stn := {| s_cp := _; s_res := _; s_err := _; s_nodes := n :: s_nodes st |}).
       replace (S (length done)) with (length (done ++ [t])) by (rewrite app_length; cbn [length]; lia).
@@ -581,38 +583,38 @@ Proof.
       { unfold stn. cbn [s_nodes]. constructor; [subst n; apply tok_node_not_eof|exact Hnodes]. }
       rewrite Hrun. cbn [bind alts_loop].
       exists st', c'. split; [reflexivity|]. split; [exact Hc'|]. split; [rewrite Hcp; exact Ecp|].
-      cbn [gen_tokens]. rewrite Et.
-      destruct (gen_tokens true inp todo (node_rpos n)) as [ns e|e].
+      cbn [spec_tokens]. rewrite Et.
+      destruct (spec_tokens inp todo (node_rpos n)) as [ns e|e].
       * unfold stn in Hres'. cbn [s_nodes rev] in Hres'. rewrite <- app_assoc in Hres'. exact Hres'.
       * exact Hres'.
     + assert (El : seq_lencheck SeqOf (length (map tok_expr (done ++ t :: todo))) (length done) = false)
         by (cbn [seq_lencheck]; apply Nat.eqb_neq; rewrite map_length, app_length; cbn [length]; lia).
       rewrite El. eexists _, c1. split; [reflexivity|]. cbn [s_cp s_res s_err]. split; [exact Hc1|]. split; [exact Ecp|].
-      cbn [gen_tokens]. rewrite Et. rewrite Herr. split; [exact Hres|reflexivity].
+      cbn [spec_tokens]. rewrite Et. rewrite Herr. split; [exact Hres|reflexivity].
 Qed.
 
 Lemma last_default {A} (l : list A) : forall x d d', last (x :: l) d = last (x :: l) d'.
 Proof. induction l as [|y l IH]; intros x d d'; [reflexivity|]. cbn [last] in *. apply IH. Qed.
 
 (* accepted tokens end where the sequence ends *)
-Lemma gen_tokens_end b inp ts : forall pos ns e, gen_tokens b inp ts pos = SAccept ns e ->
+Lemma gen_tokens_end inp ts : forall pos ns e, spec_tokens inp ts pos = SAccept ns e ->
   match ns with [] => pos | f :: _ => node_rpos (last ns f) end = e /\ pos <= e.
 Proof.
-  induction ts as [|t ts IH]; intros pos ns e; cbn [gen_tokens].
+  induction ts as [|t ts IH]; intros pos ns e; cbn [spec_tokens].
   - intros [= <- <-]. split; [reflexivity|lia].
-  - destruct (spec_token b inp t pos) as [n|e0] eqn:Et; [|discriminate].
-    destruct (gen_tokens b inp ts (node_rpos n)) as [ns' e'|e'] eqn:Eg; [|discriminate]. intros [= <- <-].
+  - destruct (spec_token inp t pos) as [n|e0] eqn:Et; [|discriminate].
+    destruct (spec_tokens inp ts (node_rpos n)) as [ns' e'|e'] eqn:Eg; [|discriminate]. intros [= <- <-].
     destruct (IH _ _ _ Eg) as (H1 & H2).
-    destruct (spec_token_accept _ _ _ _ _ Et) as (q0 & r0 & -> & Hq1 & Hq2). cbn [node_rpos] in *.
+    destruct (spec_token_accept _ _ _ _ Et) as (q0 & r0 & -> & Hq1 & Hq2). cbn [node_rpos] in *.
     split; [|lia]. destruct ns' as [|f l]; [exact H1|].
     change (last (NTerm [t_rune t] (VRune (t_rune t)) q0 r0 :: f :: l) (NTerm [t_rune t] (VRune (t_rune t)) q0 r0))
       with (last (f :: l) (NTerm [t_rune t] (VRune (t_rune t)) q0 r0)).
     rewrite (last_default l f _ f). exact H1.
 Qed.
-Lemma seq_node_rpos b inp ts pos ns e ip : gen_tokens b inp ts pos = SAccept ns e -> pos = e \/ ns <> [] ->
+Lemma seq_node_rpos inp ts pos ns e ip : spec_tokens inp ts pos = SAccept ns e -> pos = e \/ ns <> [] ->
   node_rpos (seq_node ip e ns) = e.
 Proof.
-  intros H Hn. destruct (gen_tokens_end _ _ _ _ _ _ H) as (H1 & _). unfold seq_node. cbn [node_rpos].
+  intros H Hn. destruct (gen_tokens_end _ _ _ _ _ H) as (H1 & _). unfold seq_node. cbn [node_rpos].
   destruct ns; [reflexivity|exact H1].
 Qed.
 
@@ -620,7 +622,7 @@ Qed.
 Lemma toks_parse inp rules ts f c stk lrc pos : (length ts + 5 <= f)%nat -> 1 <= pos -> cerr c = None ->
   exists c', cerr c' = None /\
     parse inp rules f (toks_expr ts) c stk lrc pos =
-    Ok (match gen_tokens true inp ts pos with
+    Ok (match spec_tokens inp ts pos with
         | SAccept ns e => ([seq_node INone e ns], [], None, c')
         | SReject e => ([], [], Some e, c')
         end).
@@ -630,7 +632,7 @@ Proof.
   destruct (seq_tokens inp rules INone ts [] f c stk lrc pos true st0 ltac:(lia) Hp Hc eq_refl eq_refl (Forall_nil _))
     as (st' & c' & Hrun & Hc' & Hcp & Hres).
   cbn [app length] in Hrun. unfold tokq in Hrun. rewrite Hrun. cbn [bind].
-  destruct (gen_tokens true inp ts pos) as [ns e|e]; destruct Hres as (Hr & He); rewrite Hr, He.
+  destruct (spec_tokens inp ts pos) as [ns e|e]; destruct Hres as (Hr & He); rewrite Hr, He.
   - exists (set_error c' None). split; [cbn [set_error cerr max_err]; exact Hc'|].
     rewrite Hcp. reflexivity.
   - exists c'. split; [exact Hc'|]. rewrite Hcp. reflexivity.
@@ -640,7 +642,7 @@ Qed.
 Lemma sentence_parse inp rules ts f c stk lrc pos : (length ts + 8 <= f)%nat -> 1 <= pos -> cerr c = None ->
   exists c', cerr c' = None /\
     parse inp rules f (sentence (toks_expr ts)) c stk lrc pos =
-    Ok (match gen_tokens true inp ts pos with
+    Ok (match spec_tokens inp ts pos with
         | SAccept ns e => if is_eof inp e then ([sentence_tree ns e], [], None, c')
                           else ([], [], Some (mk_err e (COther msg_end)), c')
         | SReject e => ([], [], Some e, c')
@@ -652,11 +654,11 @@ Proof.
   rewrite seqp_S. unfold seq_step at 1. cbn [seq_lookup q_kind q_ps nth_error].
   destruct (toks_parse inp rules ts (S (S f)) (reg_call c) stk lrc pos ltac:(lia) Hp Hc) as (c1 & Hc1 & Hinner).
   rewrite Hinner.
-  destruct (gen_tokens true inp ts pos) as [ns e|e] eqn:Eg.
+  destruct (spec_tokens inp ts pos) as [ns e|e] eqn:Eg.
   - (* tokens accepted: End at the end of the last token *)
     cbn [bind alts_loop s_nodes s_cp s_res s_err keep_max].
     assert (Er : node_rpos (seq_node INone e ns) = e).
-    { destruct (gen_tokens_end _ _ _ _ _ _ Eg) as (H1 & _). unfold seq_node. cbn [node_rpos]. destruct ns; [reflexivity|exact H1]. }
+    { destruct (gen_tokens_end _ _ _ _ _ Eg) as (H1 & _). unfold seq_node. cbn [node_rpos]. destruct ns; [reflexivity|exact H1]. }
     rewrite Er.
     rewrite seqp_S. unfold seq_step at 1. cbn [seq_lookup q_kind q_ps nth_error].
     rewrite parse_S. cbn [parse_step].
@@ -674,7 +676,7 @@ Proof.
     exists c1. split; [exact Hc1|reflexivity].
 Qed.
 
-(* C10 theorem 3 (what the code does): parsley.Parse(Sentence(SeqOf(tokens))) for EVERY token list and input *)
+(* C10 theorem 3: parsley.Parse(Sentence(SeqOf(tokens))) for EVERY token list and input *)
 Theorem tokens_code inp rules ts fuel : 1 <= i_offset inp -> (length ts + 8 <= fuel)%nat ->
   exists c, cerr c = None /\
     parse_top inp rules fuel (sentence (toks_expr ts)) =
@@ -685,83 +687,39 @@ Theorem tokens_code inp rules ts fuel : 1 <= i_offset inp -> (length ts + 8 <= f
 Proof.
   intros Ho Hf. unfold parse_top, run.
   destruct (sentence_parse inp rules ts fuel ctx0 [] [] (i_offset inp) Hf Ho eq_refl) as (c & Hc & Hrun).
-  rewrite Hrun. cbn [bind]. exists c. split; [exact Hc|]. unfold code_parse, gen_parse.
-  destruct (gen_tokens true inp ts (i_offset inp)) as [ns e|e].
+  rewrite Hrun. cbn [bind]. exists c. split; [exact Hc|]. unfold code_parse, spec_parse.
+  destruct (spec_tokens inp ts (i_offset inp)) as [ns e|e].
   - destruct (is_eof inp e); [reflexivity|]. rewrite Hc. reflexivity.
   - rewrite Hc. destruct (is_wserr e); reflexivity.
 Qed.
 
-(* ---- property and code differ only on the K3 shape ---- *)
-Lemma spec_run_idem inp pos : i_offset inp <= pos ->
-  w_end (spec_run inp (w_end (spec_run inp pos))) = w_end (spec_run inp pos).
-Proof.
-  intros Ho. unfold spec_run, run_at. cbn [w_end]. rewrite rest_add by exact Ho.
-  replace (N.to_nat (len_N (run_of (rest inp pos)))) with (length (run_of (rest inp pos))) by (unfold len_N; lia).
-  rewrite run_of_skip. unfold len_N. cbn [length]. lia.
-Qed.
-
-Lemma spec_token_relocate inp t pos : i_offset inp <= pos -> k3_shape t = false ->
-  spec_token true inp t pos = spec_token false inp t pos.
-Proof.
-  intros Ho Hk. unfold spec_token. destruct (byte_is inp _ _); [|reflexivity].
-  destruct (gap_check (t_left t) (gap inp (t_left t) pos)) as [e|] eqn:Eg; [|reflexivity]. f_equal.
-  unfold k3_shape in Hk. revert Hk Eg.
-  destruct (t_right t) as [mr|]; [|intros; apply mk_err_eta].
-  destruct (t_left t) as [ml|]; [|discriminate]. intros Hk Eg.
-  cbn [gap gap_check] in Eg. unfold mode_check in Eg.
-  destruct ml; try discriminate; cbn [mode_ok] in Eg.
-  destruct (w_nl (spec_run inp pos)); [discriminate|]. injection Eg as <-.
-  unfold mode_err, mk_err. cbn [epos ecause].
-  change (pos + len_N (run_of (rest inp pos))) with (w_end (spec_run inp pos)).
-  rewrite spec_run_idem by exact Ho. reflexivity.
-Qed.
-
-Lemma gen_tokens_relocate inp ts : forall pos, i_offset inp <= pos -> Forall (fun t => k3_shape t = false) ts ->
-  gen_tokens true inp ts pos = gen_tokens false inp ts pos.
-Proof.
-  induction ts as [|t ts IH]; intros pos Ho Hk; [reflexivity|]. cbn [gen_tokens].
-  inversion Hk as [|x l Hx Hl]; subst x l.
-  rewrite spec_token_relocate by assumption.
-  destruct (spec_token false inp t pos) as [n|e] eqn:Et; [|reflexivity].
-  destruct (spec_token_accept _ _ _ _ _ Et) as (q0 & r0 & -> & Hq1 & Hq2). cbn [node_rpos].
-  rewrite IH by (try assumption; lia). reflexivity.
-Qed.
-
-(* C10 theorem 3 (the property): when no token has the K3 shape, Parse(Sentence(SeqOf(tokens))) is what the
-   property says.  FULL statement (every token list) is false of the model and of the code: [tokens_spec_refuted]. *)
+(* C10 theorem 3 (the property): for EVERY token list Parse(Sentence(SeqOf(tokens))) is what the property says.
+   ([code_parse] is [spec_parse] since the K3 repair of RightTrim; this is [tokens_code] under its proper name.) *)
 Theorem tokens_spec inp rules ts fuel : 1 <= i_offset inp -> (length ts + 8 <= fuel)%nat ->
-  Forall (fun t => k3_shape t = false) ts ->
   exists c, cerr c = None /\
     parse_top inp rules fuel (sentence (toks_expr ts)) =
     Ok (match spec_parse inp ts with
         | VTree ns e => TopNode [sentence_tree ns e] c
         | VError e => TopErr e c
         end).
-Proof.
-  intros Ho Hf Hk. destruct (tokens_code inp rules ts fuel Ho Hf) as (c & Hc & H). exists c. split; [exact Hc|].
-  rewrite H. unfold code_parse, spec_parse, gen_parse. rewrite gen_tokens_relocate by (try assumption; lia). reflexivity.
-Qed.
+Proof. exact (tokens_code inp rules ts fuel). Qed.
 
-(* K3: RightTrim(LeftTrim(Rune a, WsSpaces), WsSpacesNl) on " \n a": the property puts "new line is not allowed"
-   at the line break (position 2); the model — and the real code — report it at position 4 *)
-Theorem tokens_spec_refuted :
-  exists inp ts fuel c,
-    1 <= i_offset inp /\ (length ts + 8 <= fuel)%nat /\
-    spec_parse inp ts = VError (mk_err 2 (CWs WsErrSpaces)) /\
-    parse_top inp [] fuel (sentence (toks_expr ts)) = Ok (TopErr (mk_err 4 (CWs WsErrSpaces)) c).
-Proof.
-  exists (eng_input [32; 10; 32; 97] 1), [{| t_left := Some WsSpaces; t_rune := 97; t_right := Some WsSpacesNl |}], 9%nat.
-  eexists. split; [vm_compute; discriminate|]. split; [vm_compute; lia|]. split; vm_compute; reflexivity.
-Qed.
+(* the former K3 witness: RightTrim(LeftTrim(Rune a, WsSpaces), WsSpacesNl) on " \n a": "new line is not allowed" is now
+   reported at the line break (position 2), where the property puts it (before the repair: position 4) *)
+Example k3_witness_repaired :
+  let inp := eng_input [32; 10; 32; 97] 1 in
+  let ts := [{| t_left := Some WsSpaces; t_rune := 97; t_right := Some WsSpacesNl |}] in
+  spec_parse inp ts = VError (mk_err 2 (CWs WsErrSpaces)) /\
+  exists c, parse_top inp [] 9 (sentence (toks_expr ts)) = Ok (TopErr (mk_err 2 (CWs WsErrSpaces)) c).
+Proof. split; [vm_compute; reflexivity|]. eexists. vm_compute. reflexivity. Qed.
 
 (* non-vacuity: an accepted sequence with whitespace in every gap, and each kind of failure *)
 Example tokens_example_accept :
   let ts := [tok_trim 97; {| t_left := Some WsSpacesNl; t_rune := 98; t_right := Some WsSpacesForceNl |};
              {| t_left := None; t_rune := 97; t_right := None |}] in
   let inp := eng_input [32; 10; 97; 32; 9; 98; 32; 13; 10; 97] 3 in
-  spec_parse inp ts = VTree [NTerm [97] (VRune 97) 5 8; NTerm [98] (VRune 98) 8 11; NTerm [97] (VRune 97) 11 12] 12 /\
-  Forall (fun t => k3_shape t = false) ts.
-Proof. split; [vm_compute; reflexivity|]. repeat (apply Forall_cons; [reflexivity|]). apply Forall_nil. Qed.
+  spec_parse inp ts = VTree [NTerm [97] (VRune 97) 5 8; NTerm [98] (VRune 98) 8 11; NTerm [97] (VRune 97) 11 12] 12.
+Proof. vm_compute. reflexivity. Qed.
 Example tokens_example_reject :
   let t m1 m2 := [{| t_left := m1; t_rune := 97; t_right := m2 |}] in
   spec_parse (eng_input [32; 97] 1) (t (Some WsNone) None) = VError (mk_err 1 (CWs WsErrNone)) /\
@@ -802,10 +760,10 @@ Qed.
 (* one token on a laid-out text: rest = g ++ c :: g1 ++ tl, g and g1 whitespace, c the token's rune (not whitespace).
    If the token is accepted its node starts exactly at the rune, and what is left of the gap behind it is
    either all of g1 (no right trim) or nothing (right trim): the next rune is always 1 + |g1| behind this one *)
-Lemma spec_token_layout b inp t pos g g1 tl n :
+Lemma spec_token_layout inp t pos g g1 tl n :
   i_offset inp <= pos -> ws4 (t_rune t) = false -> all_ws g -> all_ws g1 -> tail_ok tl ->
   rest inp pos = g ++ t_rune t :: g1 ++ tl ->
-  spec_token b inp t pos = TAccept n ->
+  spec_token inp t pos = TAccept n ->
   n = NTerm [t_rune t] (VRune (t_rune t)) (pos + len_N g) (node_rpos n) /\
   exists g', all_ws g' /\ rest inp (node_rpos n) = g' ++ tl /\ node_rpos n + len_N g' = pos + len_N g + 1 + len_N g1.
 Proof.
@@ -833,24 +791,24 @@ Proof.
 Qed.
 
 (* the nodes of an accepted sequence stand at the positions of their runes in the text, with the runes' values *)
-Lemma accepted_layout b inp : forall ts gs pos g ns e,
+Lemma accepted_layout inp : forall ts gs pos g ns e,
   i_offset inp <= pos -> Forall (fun t => ws4 (t_rune t) = false) ts -> length gs = length ts ->
   Forall all_ws gs -> all_ws g ->
   rest inp pos = g ++ lay (map t_rune ts) gs ->
-  gen_tokens b inp ts pos = SAccept ns e ->
+  spec_tokens inp ts pos = SAccept ns e ->
   map node_pos ns = starts (pos + len_N g) (map t_rune ts) gs /\
   map erase ns = map (fun t => ([t_rune t], VRune (t_rune t))) ts.
 Proof.
-  induction ts as [|t ts IH]; intros gs pos g ns e Ho Hc Hlen Hgs Hg E; cbn [gen_tokens].
+  induction ts as [|t ts IH]; intros gs pos g ns e Ho Hc Hlen Hgs Hg E; cbn [spec_tokens].
   - intros [= <- <-]. split; reflexivity.
   - destruct gs as [|g1 gs]; [discriminate|]. cbn [map lay] in E.
     inversion Hc as [|x l Hc1 Hc2]; subst x l. inversion Hgs as [|x l Hg1 Hgs2]; subst x l.
-    destruct (spec_token b inp t pos) as [n|e0] eqn:Et; [|discriminate].
-    destruct (gen_tokens b inp ts (node_rpos n)) as [ns' e'|e'] eqn:Eg; [|discriminate]. intros [= <- <-].
+    destruct (spec_token inp t pos) as [n|e0] eqn:Et; [|discriminate].
+    destruct (spec_tokens inp ts (node_rpos n)) as [ns' e'|e'] eqn:Eg; [|discriminate]. intros [= <- <-].
     assert (Htl : tail_ok (lay (map t_rune ts) gs)).
     { apply lay_tail_ok. rewrite Forall_map. exact Hc2. }
-    destruct (spec_token_layout b inp t pos g g1 _ n Ho Hc1 Hg Hg1 Htl E Et) as (Hn & g' & Hg' & Er & Hp).
-    destruct (spec_token_accept _ _ _ _ _ Et) as (q0 & r0 & Hn' & Hq1 & Hq2).
+    destruct (spec_token_layout inp t pos g g1 _ n Ho Hc1 Hg Hg1 Htl E Et) as (Hn & g' & Hg' & Er & Hp).
+    destruct (spec_token_accept _ _ _ _ Et) as (q0 & r0 & Hn' & Hq1 & Hq2).
     assert (Ho' : i_offset inp <= node_rpos n) by (rewrite Hn'; cbn [node_rpos]; lia).
     cbn [length] in Hlen.
     destruct (IH gs (node_rpos n) g' ns' e' Ho' Hc2 ltac:(lia) Hgs2 Hg' Er Eg) as (H1 & H2).
@@ -876,14 +834,14 @@ Qed.
    gs_i behind rune i; the second text is the first with whitespace inserted into — or removed from — any gaps), both
    accepted by the same tokens: the token lists are equal after erasing positions, every node starts at its own rune, and
    consequently the start of token i moves by exactly the whitespace inserted before it. *)
-Theorem transparent b ts inp1 inp2 g01 gs1 g02 gs2 ns1 e1 ns2 e2 :
+Theorem transparent ts inp1 inp2 g01 gs1 g02 gs2 ns1 e1 ns2 e2 :
   Forall (fun t => ws4 (t_rune t) = false) ts ->
   length gs1 = length ts -> length gs2 = length ts ->
   all_ws g01 -> Forall all_ws gs1 -> all_ws g02 -> Forall all_ws gs2 ->
   i_data inp1 = g01 ++ lay (map t_rune ts) gs1 ->
   i_data inp2 = g02 ++ lay (map t_rune ts) gs2 ->
-  gen_tokens b inp1 ts (i_offset inp1) = SAccept ns1 e1 ->
-  gen_tokens b inp2 ts (i_offset inp2) = SAccept ns2 e2 ->
+  spec_tokens inp1 ts (i_offset inp1) = SAccept ns1 e1 ->
+  spec_tokens inp2 ts (i_offset inp2) = SAccept ns2 e2 ->
   map erase ns1 = map erase ns2 /\
   map node_pos ns1 = starts (i_offset inp1 + len_N g01) (map t_rune ts) gs1 /\
   map node_pos ns2 = starts (i_offset inp2 + len_N g02) (map t_rune ts) gs2 /\
@@ -892,8 +850,8 @@ Theorem transparent b ts inp1 inp2 g01 gs1 g02 gs2 ns1 e1 ns2 e2 :
 Proof.
   intros Hc L1 L2 G01 G1 G02 G2 D1 D2 A1 A2.
   assert (R : forall inp, rest inp (i_offset inp) = i_data inp) by (intros inp; unfold rest; rewrite N.sub_diag; reflexivity).
-  destruct (accepted_layout b inp1 ts gs1 _ g01 ns1 e1 (N.le_refl _) Hc L1 G1 G01 ltac:(rewrite R; exact D1) A1) as (P1 & E1).
-  destruct (accepted_layout b inp2 ts gs2 _ g02 ns2 e2 (N.le_refl _) Hc L2 G2 G02 ltac:(rewrite R; exact D2) A2) as (P2 & E2).
+  destruct (accepted_layout inp1 ts gs1 _ g01 ns1 e1 (N.le_refl _) Hc L1 G1 G01 ltac:(rewrite R; exact D1) A1) as (P1 & E1).
+  destruct (accepted_layout inp2 ts gs2 _ g02 ns2 e2 (N.le_refl _) Hc L2 G2 G02 ltac:(rewrite R; exact D2) A2) as (P2 & E2).
   split; [congruence|]. split; [exact P1|]. split; [exact P2|].
   intros i s1 s2 H1 H2. rewrite P1 in H1. rewrite P2 in H2.
   apply starts_nth in H1. apply starts_nth in H2. lia.
@@ -930,13 +888,13 @@ Proof.
   intros O1 O2 Hf Hc L1 L2 G01 G1 G02 G2 D1 D2 P1 P2.
   destruct (tokens_code inp1 rules ts fuel O1 Hf) as (d1 & _ & Q1). rewrite Q1 in P1.
   destruct (tokens_code inp2 rules ts fuel O2 Hf) as (d2 & _ & Q2). rewrite Q2 in P2.
-  unfold code_parse, gen_parse in P1, P2.
-  destruct (gen_tokens true inp1 ts (i_offset inp1)) as [ns1 e1|e1] eqn:A1; [|discriminate].
-  destruct (gen_tokens true inp2 ts (i_offset inp2)) as [ns2 e2|e2] eqn:A2; [|discriminate].
+  unfold code_parse, spec_parse in P1, P2.
+  destruct (spec_tokens inp1 ts (i_offset inp1)) as [ns1 e1|e1] eqn:A1; [|discriminate].
+  destruct (spec_tokens inp2 ts (i_offset inp2)) as [ns2 e2|e2] eqn:A2; [|discriminate].
   destruct (is_eof inp1 e1); [|discriminate]. destruct (is_eof inp2 e2); [|discriminate].
   injection P1 as <- _. injection P2 as <- _.
   exists ns1, e1, ns2, e2. split; [reflexivity|]. split; [reflexivity|].
-  exact (transparent true ts inp1 inp2 g01 gs1 g02 gs2 ns1 e1 ns2 e2 Hc L1 L2 G01 G1 G02 G2 D1 D2 A1 A2).
+  exact (transparent ts inp1 inp2 g01 gs1 g02 gs2 ns1 e1 ns2 e2 Hc L1 L2 G01 G1 G02 G2 D1 D2 A1 A2).
 Qed.
 
 (* ------------------------------------------------------------------ *)
@@ -1035,10 +993,10 @@ Proof. vm_compute. repeat split; reflexivity. Qed.
 Lemma nth_error_app_len {A} (a : list A) x b : nth_error (a ++ x :: b) (length a) = Some x.
 Proof. induction a; [reflexivity|exact IHa]. Qed.
 
-Lemma trim_token_layout b inp c pos g g1 tl :
+Lemma trim_token_layout inp c pos g g1 tl :
   i_offset inp <= pos -> ws4 c = false -> all_ws g -> all_ws g1 -> tail_ok tl ->
   rest inp pos = g ++ c :: g1 ++ tl ->
-  spec_token b inp (tok_trim c) pos = TAccept (NTerm [c] (VRune c) (pos + len_N g) (pos + len_N g + 1 + len_N g1)) /\
+  spec_token inp (tok_trim c) pos = TAccept (NTerm [c] (VRune c) (pos + len_N g) (pos + len_N g + 1 + len_N g1)) /\
   rest inp (pos + len_N g + 1 + len_N g1) = tl.
 Proof.
   intros Ho Hc Hg Hg1 Htl E.
@@ -1055,18 +1013,18 @@ Proof.
   rewrite (spec_run_layout inp (pos + len_N g + 1) g1 tl Hg1 Htl Er). reflexivity.
 Qed.
 
-Lemma trim_tokens_accept b inp : forall cs gs pos g,
+Lemma trim_tokens_accept inp : forall cs gs pos g,
   i_offset inp <= pos -> Forall (fun c => ws4 c = false) cs -> length gs = length cs -> cs <> [] ->
   Forall all_ws gs -> all_ws g -> rest inp pos = g ++ lay cs gs ->
-  exists ns e, gen_tokens b inp (map tok_trim cs) pos = SAccept ns e /\ rest inp e = [] /\ i_offset inp <= e.
+  exists ns e, spec_tokens inp (map tok_trim cs) pos = SAccept ns e /\ rest inp e = [] /\ i_offset inp <= e.
 Proof.
   induction cs as [|c cs IH]; intros gs pos g Ho Hc Hlen Hne Hgs Hg E; [congruence|].
   destruct gs as [|g1 gs]; [discriminate|]. cbn [lay] in E. cbn [length] in Hlen.
   inversion Hc as [|x l Hc1 Hc2]; subst x l. inversion Hgs as [|x l Hg1 Hgs2]; subst x l.
-  destruct (trim_token_layout b inp c pos g g1 (lay cs gs) Ho Hc1 Hg Hg1 (lay_tail_ok cs gs Hc2) E) as (Et & Er).
-  cbn [map gen_tokens]. rewrite Et. cbn [node_rpos].
+  destruct (trim_token_layout inp c pos g g1 (lay cs gs) Ho Hc1 Hg Hg1 (lay_tail_ok cs gs Hc2) E) as (Et & Er).
+  cbn [map spec_tokens]. rewrite Et. cbn [node_rpos].
   destruct cs as [|c2 cs'].
-  - cbn [map gen_tokens]. eexists _, _. split; [reflexivity|]. split; [|lia].
+  - cbn [map spec_tokens]. eexists _, _. split; [reflexivity|]. split; [|lia].
     rewrite Er. destruct gs; reflexivity.
   - destruct (IH gs (pos + len_N g + 1 + len_N g1) [] ltac:(lia) Hc2 ltac:(lia) ltac:(discriminate) Hgs2 (Forall_nil _) Er)
       as (ns & e & Hgen & He & Hoe).
@@ -1094,14 +1052,14 @@ Theorem trim_any_whitespace inp rules cs g0 gs fuel :
 Proof.
   intros Ho Hf Hc Hne Hlen Hg0 Hgs D.
   assert (R : rest inp (i_offset inp) = i_data inp) by (unfold rest; rewrite N.sub_diag; reflexivity).
-  destruct (trim_tokens_accept true inp cs gs (i_offset inp) g0 (N.le_refl _) Hc Hlen Hne Hgs Hg0 ltac:(rewrite R; exact D))
+  destruct (trim_tokens_accept inp cs gs (i_offset inp) g0 (N.le_refl _) Hc Hlen Hne Hgs Hg0 ltac:(rewrite R; exact D))
     as (ns & e & Hgen & He & Hoe).
   destruct (tokens_code inp rules (map tok_trim cs) fuel Ho ltac:(rewrite map_length; exact Hf)) as (c & _ & Htop).
-  unfold code_parse, gen_parse in Htop. rewrite Hgen, (is_eof_rest inp e Hoe He) in Htop.
+  unfold code_parse, spec_parse in Htop. rewrite Hgen, (is_eof_rest inp e Hoe He) in Htop.
   exists ns, e, c. split; [exact Htop|].
   assert (Hc' : Forall (fun t => ws4 (t_rune t) = false) (map tok_trim cs)) by (rewrite Forall_map; exact Hc).
   assert (Emap : map t_rune (map tok_trim cs) = cs) by (rewrite map_map; apply map_id).
-  destruct (accepted_layout true inp (map tok_trim cs) gs (i_offset inp) g0 ns e (N.le_refl _) Hc'
+  destruct (accepted_layout inp (map tok_trim cs) gs (i_offset inp) g0 ns e (N.le_refl _) Hc'
               ltac:(rewrite map_length; exact Hlen) Hgs Hg0 ltac:(rewrite R, Emap; exact D) Hgen) as (P & Q).
   rewrite Emap in P. split; [exact P|]. rewrite Q, map_map. reflexivity.
 Qed.
